@@ -504,7 +504,18 @@ func (g *Gen) Next() Op {
 			if len(hs) == 0 {
 				continue
 			}
-			n := rapid.SampledFrom(names("n", 3)).Draw(t, "snap")
+			// a name that is free: seeking to someone else's snapshot (another
+			// filter) is outside what the statement defines
+			var free []string
+			for _, c := range names("n", 3) {
+				if m.Snaps[c] == nil {
+					free = append(free, c)
+				}
+			}
+			if len(free) == 0 {
+				continue
+			}
+			n := rapid.SampledFrom(free).Draw(t, "snap")
 			ret := m.LiveSub(sname).Cfg.retention()
 			wait := rapid.SampledFrom([]time.Duration{time.Second, time.Minute, 5 * time.Minute, ret / 2, ret / 2}).Draw(t, "macro-wait")
 			g.queue = []Op{{K: OpAck, S: sname, H: hs}, {K: OpAdvance, D: int64(wait)}, {K: OpSeekSnap, S: sname, N: n}}
